@@ -72,6 +72,7 @@ const OPTIONS: &[(&str, usize)] = &[
     ("strict_terms_in_lexer", 2),
     ("strict_tokens_in_parser", 2),
     ("combined", 2),
+    ("grammar_dir", 2),
 ];
 
 #[derive(Clone, PartialEq, Debug)]
@@ -229,7 +230,7 @@ impl Prop for C18 {
         serde_json::to_value(Case { ops, probe_one_call_stale_parser: false }).unwrap()
     }
     fn rule(&self) -> String {
-        "Histories of 1-8 operations (each possibly followed by Build, always ending in Build) over {EditGrammar(6 variants), EditLexer(6 variants, two lacking tokens some grammars use), Touch, SetOption(15 builder options incl. mod names, visibility, edition, recoverer, yacckind, serialisation format, error_on_conflicts, warnings flags, lexer flags, strictness about tokens missing from the lexer / from the parser, and the flow: two builders in turn or the one-call CTLexerBuilder::lrpar_config), BreakGrammar(4 kinds: syntax error, unknown rule, broken %grmtools section, unexpected conflicts), BreakLexer, Build}. Every Build runs the real CTParserBuilder/CTLexerBuilder in a process of its own; file times come from a logical clock. Oracle after every Build: successful => parser and lexer modules byte-identical (timestamp masked) to a clean build of the same sources/settings into an empty directory; nothing changed since the last successful build => regenerated()==false and files untouched; grammar text or a parser-relevant option changed => regenerated()==true; failed => no generated file from the earlier sources left at the output path. Evaluation = one Build step. Non-trivial: a change between two builds or a failing build after a successful one; distinct by hash(history).".into()
+        "Histories of 1-8 operations (each possibly followed by Build, always ending in Build) over {EditGrammar(6 variants), EditLexer(6 variants, two lacking tokens some grammars use), Touch, SetOption(16 builder options incl. mod names, visibility, edition, recoverer, yacckind, serialisation format, error_on_conflicts, warnings flags, lexer flags, strictness about tokens missing from the lexer / from the parser, the flow: two builders in turn or the one-call CTLexerBuilder::lrpar_config, and grammar_path switched between two files of the same leaf name in different directories), BreakGrammar(4 kinds: syntax error, unknown rule, broken %grmtools section, unexpected conflicts), BreakLexer, Build}. Every Build runs the real CTParserBuilder/CTLexerBuilder in a process of its own; file times come from a logical clock. Oracle after every Build: successful => parser and lexer modules byte-identical (timestamp masked) to a clean build of the same sources/settings into an empty directory; nothing changed since the last successful build => regenerated()==false and files untouched; grammar text or a parser-relevant option changed => regenerated()==true; failed => no generated file from the earlier sources left at the output path. Evaluation = one Build step. Non-trivial: a change between two builds or a failing build after a successful one; distinct by hash(history).".into()
     }
     fn assumptions(&self) -> Vec<String> {
         vec!["a Touch (same bytes, newer time) may or may not regenerate".into()]
@@ -244,17 +245,25 @@ impl Prop for C18 {
         let dir = PathBuf::from(root).join("work").join("c18").join(format!("{}-{}", std::process::id(), UNIQ.fetch_add(1, Ordering::SeqCst)));
         let _ = std::fs::remove_dir_all(&dir);
         std::fs::create_dir_all(dir.join("out")).unwrap();
-        let gp = dir.join("calc.y");
+        // two grammar files with the same leaf name: the builder's grammar_path can be switched
+        // between them (the "grammar_dir" setting); edits go to the selected one
+        std::fs::create_dir_all(dir.join("a")).unwrap();
+        std::fs::create_dir_all(dir.join("b")).unwrap();
+        let gps = [dir.join("a").join("calc.y"), dir.join("b").join("calc.y")];
+        let mut gtexts = [GRAMMARS[0].to_string(), GRAMMARS[2].to_string()];
+        let mut gdir = 0usize;
         let lp = dir.join("calc.l");
         let po = dir.join("out").join("calc.y.rs");
         let lo = dir.join("out").join("calc.l.rs");
         let mut clock: i64 = 0;
-        let mut gtext = GRAMMARS[0].to_string();
+        let mut gtext = gtexts[0].clone();
         let mut ltext = LEXERS[0].to_string();
         let mut settings = Settings::new();
-        std::fs::write(&gp, &gtext).unwrap();
+        for k in 0..2 {
+            std::fs::write(&gps[k], &gtexts[k]).unwrap();
+            set_mtime(&gps[k], clock);
+        }
         std::fs::write(&lp, &ltext).unwrap();
-        set_mtime(&gp, clock);
         set_mtime(&lp, clock);
         // state at the last successful build
         let mut last_ok: Option<(String, String, Settings)> = None;
@@ -269,15 +278,17 @@ impl Prop for C18 {
             match op {
                 Op::EditGrammar(k) => {
                     gtext = GRAMMARS[*k].to_string();
-                    std::fs::write(&gp, &gtext).unwrap();
-                    set_mtime(&gp, clock);
+                    gtexts[gdir] = gtext.clone();
+                    std::fs::write(&gps[gdir], &gtext).unwrap();
+                    set_mtime(&gps[gdir], clock);
                     // rewriting the same bytes is a Touch
                     touched = true;
                 }
                 Op::BreakGrammar(k) => {
                     gtext = BROKEN_GRAMMARS[*k].to_string();
-                    std::fs::write(&gp, &gtext).unwrap();
-                    set_mtime(&gp, clock);
+                    gtexts[gdir] = gtext.clone();
+                    std::fs::write(&gps[gdir], &gtext).unwrap();
+                    set_mtime(&gps[gdir], clock);
                     touched = true;
                 }
                 Op::EditLexer(k) => {
@@ -291,18 +302,24 @@ impl Prop for C18 {
                     set_mtime(&lp, clock);
                 }
                 Op::Touch => {
-                    set_mtime(&gp, clock);
+                    set_mtime(&gps[gdir], clock);
                     touched = true;
                 }
                 Op::SetOption(name, v) => {
                     let i = OPTIONS.iter().position(|(n, _)| n == name).unwrap();
                     settings.vals[i] = *v;
                     o.class("option-change");
+                    if name == "grammar_dir" && *v != gdir {
+                        // the other file becomes the grammar: its text and its (old) file time
+                        gdir = *v;
+                        gtext = gtexts[gdir].clone();
+                        o.class("grammar-path-switched");
+                    }
                 }
                 Op::Build => {
                     o.evals += 1;
                     let mut spec = CtSpec {
-                        grammar_path: gp.to_string_lossy().to_string(),
+                        grammar_path: gps[gdir].to_string_lossy().to_string(),
                         lexer_path: lp.to_string_lossy().to_string(),
                         parser_out: po.to_string_lossy().to_string(),
                         lexer_out: lo.to_string_lossy().to_string(),
@@ -311,6 +328,8 @@ impl Prop for C18 {
                     settings.apply(&mut spec);
                     let before_p = std::fs::read(&po).ok();
                     let before_l = std::fs::read(&lo).ok();
+                    let mtime_of = |p: &Path| std::fs::metadata(p).ok().map(|m| FileTime::from_last_modification_time(&m));
+                    let (mt_p, mt_l) = (mtime_of(&po), mtime_of(&lo));
                     let r = match run_ctstep(&spec) {
                         Ok(r) => r,
                         Err(e) => {
@@ -468,14 +487,14 @@ impl Prop for C18 {
                         // last successful state so that "unchanged" is judged against a success
                         last_ok = None;
                     }
-                    // logical time of whatever outputs exist now: written by this build, i.e.
-                    // newer than every source so far (also after a partly failed build - the real
-                    // clock would say the same)
+                    // logical time for the outputs this build has written (their file time is the
+                    // real clock's now): newer than every source so far, also after a partly failed
+                    // build. A file the build did not touch keeps the time it had.
                     clock += 10;
-                    if po.exists() {
+                    if po.exists() && mtime_of(&po) != mt_p {
                         set_mtime(&po, clock);
                     }
-                    if lo.exists() {
+                    if lo.exists() && mtime_of(&lo) != mt_l {
                         set_mtime(&lo, clock);
                     }
                 }
